@@ -137,6 +137,34 @@ def verify(harness, shape, params=None, kind='automaton', seed=0,
             functions.update(ctx.functions)
 
     t0 = time.time()
-    records, stats = eng.explore(h)
+    try:
+        records, stats = eng.explore(h)
+    except (eng.Unsupported, eng.OutOfReach) as e:
+        # The code no longer has the shape the sidecar's proof is written for,
+        # so no verdict can be DEDUCED.  Before giving up (exit 3), evaluate the
+        # contract's postconditions on the real code over a bounded family of
+        # concrete inputs of the same shape: a failing input is a violation
+        # that needs no proof; finding none leaves the check undecided.
+        for i in range(3 * n_random):
+            interp = worlds.interp_random(seed * 1000 + i)
+            try:
+                cw = run_concrete(harness, shape, interp, params, kind)
+            except Exception:
+                break
+            if cw.failed:
+                rec = dict(
+                    name=cw.failed[0]['name'], kind='post', status='refuted',
+                    seconds=0.0, backend='-', n_assumptions=0, path=[],
+                    goal='contract postcondition evaluated on the real code '
+                         f'(deductive proof not applicable: {e})',
+                    model=None,
+                    replay=dict(outcome='violates',
+                                source=f'bounded-search#{i} (proof not applicable)',
+                                failed=cw.failed, inputs=cw.inputs_concrete,
+                                checked=cw.checked))
+                return dict(records=[rec], functions=functions,
+                            stats=dict(paths=0, solver_s=0.0,
+                                       wall_s=round(time.time() - t0, 3)))
+        raise
     stats['wall_s'] = round(time.time() - t0, 3)
     return dict(records=records, stats=stats, functions=functions)
